@@ -4,6 +4,7 @@ CONSTANTS
   Aux <- MCAux
   NodeKinds <- MCNodeKinds
   CallSet <- MCCallSet
+  Twin <- MCTwin
   N = 2
   MaxCalls = 1
   SrcEnc = "aes"
@@ -26,4 +27,9 @@ CONSTANTS
   WithNullObj = FALSE
   WithScalarObj = TRUE
   CallOps = {"ref","obj","arr1"}
+  WithTwin = FALSE
+  CFIndirect = TRUE
+  PlainIdentity = FALSE
+  KeyByNumber = FALSE
+  CryptProbeDirectOnly = FALSE
 INVARIANTS Once Repeat Terminates NoPanic ErrorsOnlyUnsupported Shape Sharing IsoInv
